@@ -14,9 +14,9 @@ FUNCTIONS = ["xgcm.grid_ufunc:_reattach_coords", "xgcm.padding:_strip_all_coords
              "xgcm.grid:Grid._1d_grid_ufunc_dispatch", "xgcm.grid_ufunc:apply_as_grid_ufunc", "xgcm.grid_ufunc:_apply"]
 BOUNDS = {
     "quick": {"dataset": "axes X (center,left,outer,inner) and Y (center,left), extra dim t; non-dimension coordinates 0-D, 1-D on each X position, 2-D (y,x-left), 3-D, all with symbolic values and attributes; with and without dimension coordinates",
-              "operations": "diff/interp/min/max on padded (center->left, left->center, center->outer) and unpadded (outer->center, center->inner) paths, cumsum (4 shifts), keep_coords True/False",
+              "operations": "diff/interp/min/max on padded (center->left, left->center, center->outer) and unpadded (outer->center, center->inner) paths, cumsum (4 shifts), keep_coords True/False; the same through metric_weighted calls, calls over two axes, and apply_as_grid_ufunc (N=2)",
               "inputs": "carrying the dataset's coordinates, none, or other labels (symbolic non-index coordinates, shifted index labels)", "N": [2, 3]},
-    "thorough": {"N": [2, 3, 4], "operations": "+ multi-axis calls"},
+    "thorough": {"N": [2, 3, 4], "operations": "variants also at N=3"},
 }
 OUTSIDE = ["symbolic index (dimension-coordinate) labels: pandas indexes hash their labels", "coordinates of the input that are not coordinates of the grid dataset (statement is silent)"]
 ASSUMPTIONS = ["data finite"]
@@ -34,10 +34,22 @@ def cases(tier):
                 # a grid dataset whose only non-dimension coordinates live on the target position
                 out.append(dict(N=N, dimcoords=dimcoords, frm=frm, to=to, inp="none", only_on=POSD[to]))
                 out.append(dict(N=N, dimcoords=dimcoords, frm=frm, to=to, inp="dataset", only_on=POSD[frm]))
+    # the same labelling through other routes to the same machinery: metric-weighted calls, calls over two axes,
+    # and a user function applied as a grid ufunc (keep_coords defaults differ there)
+    for N in ([2] if tier == "quick" else [2, 3]):
+        for dimcoords in ("all", "none", "some"):
+            for frm, to in SHIFTS:
+                for inp in ("dataset", "none"):
+                    for variant in ("mw", "axes2", "ufunc"):
+                        out.append(dict(N=N, dimcoords=dimcoords, frm=frm, to=to, inp=inp, variant=variant))
     return out
 
 
-def build(W, N, dimcoords, only_on=None):
+UFUNC_WIDTHS = {("center", "left"): (1, 0), ("left", "center"): (0, 1), ("center", "outer"): (1, 1), ("outer", "center"): (0, 0),
+                ("center", "inner"): (0, 0), ("inner", "center"): (1, 1)}
+
+
+def build(W, N, dimcoords, only_on=None, metrics=False):
     sizes = {"xc": N, "xg": N, "xo": N + 1, "xi": N - 1, "yc": 2, "yg": 2, "t": 2}
     coords = {}
     want_dim = {"all": list(sizes), "none": [], "some": ["xc", "xo", "yc"]}[dimcoords]
@@ -56,19 +68,27 @@ def build(W, N, dimcoords, only_on=None):
     for d in sizes:
         if d not in ds.dims:
             ds["_len_" + d] = ((d,), np.zeros(sizes[d]))
+    if metrics:
+        for d in POSD.values():
+            m = W.data("dx_" + d, (sizes[d],), gen=lambda r: r.randint(2, 20) / 4.0)
+            if W.sym:
+                for x in m.ravel():
+                    W.assume(x.t > 0)
+            ds["dx_" + d] = ((d,), m)
     return ds, sizes, nd, vals
 
 
 def case(W, cfg):
     import xgcm
     N, frm, to = cfg["N"], cfg["frm"], cfg["to"]
-    if N == 2 and "inner" in (frm, to) and False:
-        return
-    ds, sizes, nd, vals = build(W, N, cfg["dimcoords"], cfg.get("only_on"))
+    variant = cfg.get("variant", "plain")
+    ds, sizes, nd, vals = build(W, N, cfg["dimcoords"], cfg.get("only_on"), metrics=(variant == "mw"))
+    gkw = dict(metrics={("X",): ["dx_" + d for d in POSD.values()]}) if variant == "mw" else {}
     with warnings.catch_warnings():
         warnings.simplefilter("ignore")
-        grid = xgcm.Grid(ds, coords={"X": dict(POSD), "Y": {"center": "yc", "left": "yg"}}, periodic=False, boundary="extend", autoparse_metadata=False)
+        grid = xgcm.Grid(ds, coords={"X": dict(POSD), "Y": {"center": "yc", "left": "yg"}}, periodic=False, boundary="extend", autoparse_metadata=False, **gkw)
     old, new = POSD[frm], POSD[to]
+    olds, news = [old], [new]
     dims = ["t", "yc", old]
     a = W.data("a", tuple(sizes[d] for d in dims))
     base = xr.DataArray(a, dims=dims, name="tracer")
@@ -83,37 +103,59 @@ def case(W, cfg):
         other["lon_" + {"center": "c", "left": "g", "outer": "o", "inner": "i"}[frm]] = ((old,), W.data("otherlon", (sizes[old],)))
         other["mylabel"] = (("yc",), W.data("mylabel", (2,)))
         da = base.assign_coords(other)
-    ref_values = {}
-    for op in ("diff", "interp", "min", "max", "cumsum"):
-        if op == "cumsum" and (frm, to) in (("left", "center"),) and False:
-            continue
+    axis, extra_kw, ops = "X", {}, ("diff", "interp", "min", "max", "cumsum")
+    to_arg = to
+    if variant == "mw":
+        extra_kw = dict(metric_weighted=("X",))
+    elif variant == "axes2":
+        axis, to_arg = ["X", "Y"], {"X": to, "Y": "left"}
+        olds, news = [old, "yc"], [new, "yg"]
+    elif variant == "ufunc":
+        ops = ("ufunc",)
+
+    def call(op, arr, keep):
+        if op == "ufunc":
+            r = grid.apply_as_grid_ufunc(lambda x: x[..., 1:] - x[..., :-1], arr, axis=[("X",)], signature="(X:%s)->(X:%s)" % (frm, to),
+                                         boundary_width={"X": UFUNC_WIDTHS[(frm, to)]}, keep_coords=keep)
+            return r[0] if isinstance(r, (tuple, list)) else r
+        return getattr(grid, op)(arr, axis, to=to_arg, keep_coords=keep, **extra_kw)
+
+    for op in ops:
         for keep in (True, False):
-            lab = "%s:%s->%s:keep=%s" % (op, frm, to, keep)
+            lab = "%s%s:%s->%s:keep=%s" % (op, "" if variant == "plain" else "[" + variant + "]", frm, to, keep)
             with warnings.catch_warnings():
                 warnings.simplefilter("ignore")
                 try:
-                    r = getattr(grid, op)(da, "X", to=to, keep_coords=keep)
+                    r = call(op, da, keep)
                 except Exception as e:  # noqa
                     W.fail("raises:%s:%s" % (type(e).__name__, op), "%s: %s" % (lab, str(e)[:200]))
                     continue
-                r_plain = getattr(grid, op)(base, "X", to=to, keep_coords=keep)
-            rdims = ("t", "yc", new)
+                r_plain = call(op, base, keep)
+            rdims = tuple(news[olds.index(d)] if d in olds else d for d in dims)
             W.require("dims", tuple(r.dims) == rdims, "%s: %s" % (lab, r.dims))
-            W.require("name-kept", r.name == "tracer", "%s: name %r" % (lab, r.name))
+            if tuple(r.dims) != rdims:
+                continue
+            if op != "ufunc":
+                W.require("name-kept", r.name == "tracer", "%s: name %r" % (lab, r.name))
             # values never depend on the input's labels
             W.equal("values-independent-of-input-labels:" + op, r.data, r_plain.data, detail=lab, record=keep)
             # coordinate of the new dimension = the dataset's coordinate for the target position
-            if new in ds.coords:
-                ok = new in r.coords and list(r[new].values) == list(ds[new].values) and dict(r[new].attrs) == dict(ds[new].attrs)
-                W.require("new-dim-coordinate-from-grid", ok, "%s: %s" % (lab, r.coords.get(new)))
-            else:
-                W.require("no-invented-coordinate", new not in r.coords, "%s: coordinate %s appeared" % (lab, new))
+            for nw in news:
+                if nw in ds.coords:
+                    ok = nw in r.coords and list(r[nw].values) == list(ds[nw].values) and dict(r[nw].attrs) == dict(ds[nw].attrs)
+                    W.require("new-dim-coordinate-from-grid", ok, "%s: %s" % (lab, r.coords.get(nw)))
+                else:
+                    W.require("no-invented-coordinate", nw not in r.coords, "%s: coordinate %s appeared" % (lab, nw))
             if cfg["inp"] != "other":
-                for d in ("t", "yc"):
+                for d in rdims:
+                    if d in news:
+                        continue
                     if d in ds.coords:
                         ok = d in r.coords and list(r[d].values) == list(ds[d].values) and dict(r[d].attrs) == dict(ds[d].attrs)
                         W.require("untouched-dim-coordinate-kept", ok, "%s: dim %s -> %s" % (lab, d, r.coords.get(d)))
-            stale = [k for k, v in r.coords.items() if old in v.dims]
+                    elif cfg["inp"] == "none":
+                        W.require("no-invented-coordinate", d not in r.coords, "%s: coordinate %s appeared" % (lab, d))
+            stale = [k for k, v in r.coords.items() if set(olds) & set(v.dims)]
             W.require("no-coordinate-on-abandoned-dim", not stale, "%s: stale coordinates %s" % (lab, stale))
             for name, cd in nd.items():
                 fits = set(cd) <= set(rdims)
